@@ -139,6 +139,20 @@ def sweep_cases(ctx):
         c["steps"] = [{"flags": ["m", "c"]}, {"put": [{"path": "sub/mid.yaml", "text": json.dumps(dict(mid, subject="CN=Mid v1, O=Keys"))}], "flags": ["c"]}, {"flags": ["a"]},
                       {"put": [{"path": "ca.yaml", "text": json.dumps(dict(ca, subject="CN=Key CA G2"))}], "flags": ["m", "c"]}]
         out.append(c)
+    # the user exchanges the PRIVATE KEY block of an issuing CA for another PKCS#8 key (the old certificate stays in the file) and edits the
+    # configuration: the regenerated certificate carries the public key of the key that is in the file NOW, that key stays, the
+    # certificates below are signed with it
+    for k in (["P-256", "P-384", "brainpoolP256r1"] if ctx.quick else ec):
+        for flags in (["m", "c"], ["a"]):
+            ca, mid, leaf = cfgs(k, 0)
+            c = case(len(out) + 1, [("ca.yaml", ca), ("sub/mid.yaml", mid), ("sub/leaf.yaml", leaf)],
+                     tag={"prop": "C14", "class": "%s: key block exchanged by the user, then regenerated (%s)" % (k, "".join(flags)), "firstMustSucceed": True})
+            _, mid1, _ = cfgs(k, 1)
+            c["steps"] = [{"put": [{"path": "sub/mid.pem", "make": {"kind": "damage", "key": "cert-of-other-key", "cn": "mid"}},
+                                   {"path": "sub/mid.yaml", "text": json.dumps(mid1)}], "flags": flags, "userKey": True},
+                          {"flags": ["a"]},
+                          {"put": [{"path": "ca.yaml", "text": json.dumps(dict(ca, subject="CN=Key CA G2"))}], "flags": ["m", "c"]}]
+            out.append(c)
     # a PKCS#8 key of an algorithm gopki cannot use (Ed25519): it is the user's key all the same - whatever the run does
     # (fail, most likely), the key stays in the file
     for flags in (["m", "c"], ["a"]):
